@@ -437,10 +437,12 @@ fn run_case(m: &mut Monitor, rng: &mut Rng, base: &World, users: &[Pubkey], shar
                     m.violation(&format!("C33:{name}:referrer_set_by_other_instruction"), witness(&rel, json!({"user": u, "new": r})));
                 }
             }
-            if r == u {
+            // (state invariants are reported when they first appear, not on every later instruction)
+            if r == u && rel.referrer.get(u) != Some(u) {
                 m.violation(&format!("C33:{name}:self_referral"), witness(&rel, json!({"user": u})));
             }
-            if post.referrer.get(r) == Some(u) {
+            let was_mutual = rel.referrer.get(u) == Some(r) && rel.referrer.get(r) == Some(u);
+            if post.referrer.get(r) == Some(u) && !was_mutual {
                 m.violation(&format!("C33:{name}:mutual_referral"), witness(&rel, json!({"user": u, "referrer": r})));
             }
         }
@@ -452,7 +454,9 @@ fn run_case(m: &mut Monitor, rng: &mut Rng, base: &World, users: &[Pubkey], shar
         // (2) every code belongs to exactly one user.
         for (c, owner) in &post.code_owner {
             let holders: Vec<usize> = post.user_code.iter().filter(|(_, cc)| *cc == c).map(|(u, _)| *u).collect();
-            if holders != vec![*owner] {
+            let holders_before: Vec<usize> = rel.user_code.iter().filter(|(_, cc)| *cc == c).map(|(u, _)| *u).collect();
+            let same_as_before = rel.code_owner.get(c) == Some(owner) && holders_before == holders;
+            if holders != vec![*owner] && !same_as_before {
                 m.violation(
                     &format!("C33:{name}:code_not_owned_by_exactly_one_user"),
                     witness(&rel, json!({"code": c, "code_account_owner": owner, "users_pointing_to_code": holders})),
@@ -525,7 +529,7 @@ pub fn run(args: &Args) -> Option<i32> {
     mon.assume("failed instructions change nothing (transaction atomicity of the runtime), so accounts are re-read only after successes");
     mon.assume("requests the property does not forbid but the instruction docs reject (malformed accounts, receiver already has a code, …) are counted, not judged");
     let quiet = hostsvm::QuietStdout::new();
-    let shards = args.scale(128, 512);
+    let shards = args.scale(512, 4096);
     let cases = args.scale(12, 40);
     let seed = args.seed;
     run_shards(&mut mon, args.threads, shards, |shard, m| {
